@@ -1,0 +1,18 @@
+//go:build verif
+
+package spiffe
+
+import "k8s.io/utils/clock"
+
+// VerifHook, when set by a verification harness, is called at the decision
+// points of this package. It is only compiled with the "verif" build tag.
+var VerifHook func(point string, kv ...any)
+
+func verifPoint(point string, kv ...any) {
+	if h := VerifHook; h != nil {
+		h(point, kv...)
+	}
+}
+
+// VerifSetClock replaces the clock used by the rotation loop.
+func (s *SPIFFE) VerifSetClock(clk clock.Clock) { s.clock = clk }
